@@ -234,17 +234,6 @@ theorem node_getters_eq_ref (n L now0 : Nat) (hn : 0 < n) (hL : 0 < L) (h0 : 0 <
 lists with one item per distinct second; they are compared as finite maps `second ↦ payload` (`itemAt`), and
 therefore have the same non-zero items — the driver's canonical form (all-zero items dropped, sorted by second). -/
 
-/-- the current bucket has been touched (created in it, or some call landed in it) ⇒ the last call is in it -/
-theorem touched_last (L now0 : Nat) (ops : List (Op Bucket)) (mono : MonoOps now0 ops) (now : Nat)
-    (hnow : ∀ o ∈ ops, o.time ≤ now) (hnow0 : now0 ≤ now)
-    (ht : cbs L now0 = cbs L now ∨ ∃ o ∈ ops, cbs L o.time = cbs L now) :
-    cbs L (lastTime now0 ops) = cbs L now := by
-  obtain ⟨h1, h2⟩ := le_lastTime now0 ops mono
-  have h3 := cbs_mono L (lastTime_le now0 now ops hnow0 hnow)
-  rcases ht with h | ⟨o, ho, h⟩
-  · have := cbs_mono L h1; omega
-  · have := cbs_mono L (h2 o ho); omega
-
 /-- **items, outside the known-finding region** (`_partial`: `now` is not on a bucket boundary, or the current
 bucket has been touched): each reported second's payload equals the sum of the references of its buckets inside the
 array-wide aligned window (the last `n` buckets ending at the current one) that satisfy the caller's predicate;
@@ -316,6 +305,9 @@ theorem validView_iff_tiles (sc Iv psc pI : Nat) :
 example : Mono 100 [(100, evBucket .pass 3), (700, evBucket .pass 2)] := by simp [Mono]
 example : MonoOps 100 [Op.add 100 (evBucket .pass 3), Op.refresh 600, Op.add 700 (evBucket .pass 2)] := by
   simp [MonoOps, Op.time]
+/-- the hypotheses of `secondItems_boundary_eq` are met by the known-finding replay (read at 638 on a 1 ms grid,
+    last call at 618) -/
+example : 638 % 1 = 0 ∧ cbs 1 (lastTime 1 [Op.add 618 (evBucket .pass 3)]) ≠ cbs 1 638 := by decide
 
 /-- the pre-repair arithmetic (`rangeOfWrap`, uint64 wrap-around) lost the window for `now < Iv - L`:
     array 2×500 created at t=100, view interval 1000 read at t=100 — the wrapped start excludes the
